@@ -42,7 +42,10 @@ TRUSTED = ['the executor: pool.submit either accepts the callable or raises (Run
            'until done and re-raises; done-callbacks run after completion (model semantics, Model/Tasks.lean)',
            'dict.values() / list(view) of the handler\'s own dict do not raise (whitelist of c09_flush_skeleton_guarded)',
            'threading.Event / Semaphore / Thread behave as documented (gates)']
-ASSUMPTIONS = ['known finding C09/flush-gives-up-after-10s: a wait of flush that runs into its 10 s bound leaves the task '
+ASSUMPTIONS = ['finding candidate C09/refused-push-still-runs-unwaited: an executor that queues the work item and then raises '
+               '(Thread.start failing) refuses the caller but runs the task, and flush does not wait for it (modelled: '
+               'pushQueuedRaised; falls outside NoPushOverlapsFlush); generated only in its own labelled stream',
+               'known finding C09/flush-gives-up-after-10s: a wait of flush that runs into its 10 s bound leaves the task '
                'unfinished (modelled: flushTimeout; c09_drained_partial names the hypothesis)',
                'known finding C09/flush-misses-task-being-submitted: a flush that begins while a push is between '
                'pool.submit and the store does not see that task (modelled: pushBegin/pushStore; hypothesis named); the '
@@ -138,6 +141,10 @@ class StepPool:
         f.bench = b
         self.jobs.append(Job(len(self.jobs) + 1, fn, args, f))
         b.accepted.append(b.pushing_k)
+        if b.queue_then_raise:
+            # what ThreadPoolExecutor.submit does when it cannot start a worker: the work item is on the queue already
+            b.queue_then_raise = False
+            raise RuntimeError("can't start new thread")
         if b.park_submit:
             # `pushBegin`: the pool has the task, submit_task has not stored it yet — the caller stops here
             b.park_submit = False
@@ -306,6 +313,7 @@ class Bench:
         self.callers = {self.caller}       # threads that call push_snapshot (the application side)
         self.pushing_k = None
         self.reject_next = False
+        self.queue_then_raise = False
         self.park_submit = False
         self.submit_parked = threading.Event()
         self.submit_go = threading.Event()
@@ -378,6 +386,14 @@ class Bench:
             self.do_push()
         finally:
             self.reject_next = False
+
+    def do_push_queued_raised(self):
+        """push_snapshot while the executor queues the work item and then raises (`Thread.start` failing)"""
+        self.queue_then_raise = True
+        try:
+            self.do_push()
+        finally:
+            self.queue_then_raise = False
 
     def do_push_begin(self):
         """push_snapshot on an application thread of its own, stopped inside submit_task right after pool.submit"""
@@ -624,6 +640,8 @@ def run_det(case):
                 b.do_push()
             elif s == 'pushRejected':
                 b.do_push_rejected()
+            elif s == 'pushQueuedRaised':
+                b.do_push_queued_raised()
             elif s == 'pushBegin':
                 b.do_push_begin()
             elif s == 'pushStore':
@@ -739,6 +757,7 @@ def run_pool(case):
         b.close()
 
 
+ORPHAN = 'C09/refused-push-still-runs-unwaited'
 OVERLAP = 'C09/flush-misses-task-being-submitted'
 GIVES_UP = 'C09/flush-gives-up-after-10s'
 
@@ -746,6 +765,13 @@ GIVES_UP = 'C09/flush-gives-up-after-10s'
 def known_replays():
     P, F = {'s': 'push'}, {'s': 'flushBegin'}
     return [
+        (ORPHAN,
+         "ThreadPoolExecutor.submit queues the work item and then raises (Thread.start failing: can't start new thread): "
+         'push_snapshot raises to its caller, the task is not in the pending map, flush() returns without waiting for '
+         'it, and the refused snapshot is sent afterwards (simulated: the step pool queues, then raises RuntimeError)',
+         {'mode': 'det', 'outcomes': ['ok', 'ok'],
+          'sched': [P, {'s': 'pushQueuedRaised'}, {'s': 'start', 'id': 1, 'w': 0}, {'s': 'finish', 'id': 1}, F,
+                    {'s': 'callback', 'id': 1}, {'s': 'start', 'id': 2, 'w': 1}, {'s': 'finish', 'id': 2}]}),
         (OVERLAP,
          'flush() begins while a push is inside submit_task, between pool.submit and the store into the pending map: '
          'flush finds nothing pending and returns at once; the accepted task is still running and was not refused',
@@ -763,6 +789,14 @@ def known_replays():
 def known_finding(case, obs):
     if case.get('judge_timeout'):
         return GIVES_UP
+    orphan = False
+    for st in case.get('sched', []):
+        if st['s'] == 'flushBegin' and orphan:
+            return ORPHAN
+        if st['s'] == 'flushBegin':
+            break
+        if st['s'] == 'pushQueuedRaised':
+            orphan = True
     inside = False
     for st in case.get('sched', []):
         if st['s'] == 'pushBegin':
@@ -1036,6 +1070,42 @@ def gen_det(rng, tier):
     return {'mode': 'det', 'outcomes': outcomes[:max(pushed, 1)], 'sched': sched}
 
 
+def gen_orphan(rng):
+    """labelled stream (known-finding candidate C09/refused-push-still-runs-unwaited): one push meets an executor that
+    queues the work item and then raises; the other pushes are ordinary; starts / finishes / callbacks in a random order
+    (the orphan task has no done-callback), one flush somewhere after the refused push"""
+    n = rng.randint(1, 3)
+    at = rng.randrange(n)
+    outcomes = [rng.choice(['ok', 'ok', 'send_exc', 'unconvertible']) for _ in range(n)]
+    sched = [{'s': 'pushQueuedRaised'} if i == at else {'s': 'push'} for i in range(n)]
+    queued, running, finished = list(range(1, n + 1)), [], []
+    flushed = False
+    for _ in range(40):
+        opts = (['start'] * 2 if queued else []) + (['finish'] * 2 if running else []) + \
+               (['callback'] if [j for j in finished if j != at + 1] else []) + ([] if flushed else ['flushBegin'])
+        if not opts:
+            break
+        a = rng.choice(opts)
+        if a == 'start':
+            j = rng.choice(queued)
+            queued.remove(j)
+            running.append(j)
+            sched.append({'s': 'start', 'id': j, 'w': rng.randint(0, 1)})
+        elif a == 'finish':
+            j = rng.choice(running)
+            running.remove(j)
+            finished.append(j)
+            sched.append({'s': 'finish', 'id': j})
+        elif a == 'callback':
+            j = rng.choice([x for x in finished if x != at + 1])
+            finished.remove(j)
+            sched.append({'s': 'callback', 'id': j})
+        else:
+            sched.append({'s': 'flushBegin'})
+            flushed = True
+    return {'mode': 'det', 'outcomes': outcomes, 'sched': sched}
+
+
 def gen_pool(rng, tier, base_first=False):
     n = rng.randint(1, 5)
     outcomes = [rng.choice(['ok', 'send_exc', 'send_base', 'send_base', 'unconvertible', 'dies_base'])
@@ -1137,6 +1207,8 @@ def gen(rng, tier):
             yield gen_pool(rng, tier, base_first=(k % 24 == 0))
         elif k % 12 == 5:
             yield gen_submitters(rng)
+        elif k % 24 == 11:
+            yield gen_orphan(rng)
         else:
             yield gen_det(rng, tier)
 
@@ -1190,7 +1262,7 @@ def accepted_outcomes(case, obs_state):
     for st in case['sched']:
         if st['s'] == 'flushBegin':
             closed = True
-        elif st['s'] in ('push', 'pushBegin'):
+        elif st['s'] in ('push', 'pushBegin', 'pushQueuedRaised'):
             if not closed and k < len(case['outcomes']):
                 outs.append(case['outcomes'][k])
             k += 1
@@ -1205,7 +1277,7 @@ def rejected_snapshots(case):
     for st in case['sched']:
         if st['s'] in ('push', 'pushBegin'):
             k += 1
-        elif st['s'] == 'pushRejected':
+        elif st['s'] in ('pushRejected', 'pushQueuedRaised'):
             ks.add(k)
             k += 1
     return ks
@@ -1296,12 +1368,12 @@ def oracle(case, obs):
         where = f'after step {n} ({st["s"]}{" " + str(st["id"]) if "id" in st else ""})'
         if st['s'] == 'flushBegin':
             closed = True
-        if st['s'] == 'pushRejected' and not closed:
+        if st['s'] in ('pushRejected', 'pushQueuedRaised') and not closed:
             want_ref += 1
             if o['refused'] != want_ref:
                 v.append(f'{where}: the executor refused the task and push_snapshot did not hand that to its caller '
                          f'({o["refused"]} refusals so far, {want_ref} expected): the snapshot is dropped silently')
-        if st['s'] in ('push', 'pushBegin', 'pushRejected') and closed:
+        if st['s'] in ('push', 'pushBegin', 'pushRejected', 'pushQueuedRaised') and closed:
             want_ref += 1
             if o['refused'] != want_ref:
                 v.append(f'{where}: a push after flush closed the handler was not refused visibly '
@@ -1365,14 +1437,14 @@ def model_request(case, obs):
     # outcomes by job id = outcomes of the accepted pushes, in order
     outs = accepted_outcomes(case, None)
     sched = pool_model_sched({'outcomes': outs, 'sched': case['sched']}) if case['mode'] == 'pool' else case['sched']
-    if any(st['s'] == 'pushRejected' for st in case['sched']):
+    if any(st['s'] in ('pushRejected', 'pushQueuedRaised') for st in case['sched']):
         # the schedule names tasks in the order they were accepted; the handler's job ids (which the model uses) skip
         # the ids used up by pushes the executor refused while the handler was open
         job_of, by_job, jid, closed = {}, [], 0, False
         for st in case['sched']:
             if st['s'] == 'flushBegin':
                 closed = True
-            elif st['s'] in ('push', 'pushBegin', 'pushRejected') and not closed:
+            elif st['s'] in ('push', 'pushBegin', 'pushRejected', 'pushQueuedRaised') and not closed:
                 jid += 1
                 by_job.append('ok')
                 if st['s'] != 'pushRejected':
@@ -1454,6 +1526,8 @@ def _features(case):
             feats.add('push-after-close')
         elif st['s'] == 'pushRejected':
             feats.add('executor-refusal')
+        elif st['s'] == 'pushQueuedRaised':
+            feats.add('queued-then-raised')
         elif st['s'] == 'callback' and closed:
             feats.add('callback-during-flush')
     return feats
